@@ -2,7 +2,8 @@
 From Coq Require Import List NArith Bool Arith Lia.
 From SNT Require Import Base.Outcome Automata.Regex Automata.NFA Automata.Build Automata.Compile
   Automata.PathLemmas Automata.BuildLeaves Automata.BuildProofs Automata.CompileSpec
-  Automata.CompileProofs Automata.BuildKeys Automata.BuildTags Automata.CompileTotal.
+  Automata.CompileProofs Automata.BuildKeys Automata.BuildTags Automata.CompileTotal
+  Automata.TagSpec Automata.TagLaw.
 Import ListNotations.
 
 Theorem main_matches (e : regex) (fuel cf : nat) (d : dfa) :
@@ -80,4 +81,15 @@ Proof.
   destruct (compile_correct fuel cf (build e) d (build_keys e) E s Hb) as [r [Hr' Hm]].
   rewrite Hr in Hr'. inversion Hr'; subst r.
   destruct Hm as [i [Hi [_ [_ [Htags _]]]]]. exists i. split; [exact Hi|exact Htags].
+Qed.
+
+(* the general expression-level tag law: every expression, tags in any position *)
+Theorem main_tags_general (e : regex) (fuel cf : nat) (d : dfa) :
+  compile fuel cf (build e) = Ok d ->
+  forall s k, bytes s -> transition_many d (dstart d) s = Ok (Some k) ->
+    exists i, info d k = Ok i /\ forall t, In t (dtags i) <-> tag_law_spec e s t.
+Proof.
+  intros E s k Hb Hr.
+  destruct (main_tags_reachable e fuel cf d E s k Hb Hr) as [i [Hi Ht]].
+  exists i. split; [exact Hi|]. intros t. rewrite Ht. apply (tag_law e s t).
 Qed.
